@@ -734,6 +734,117 @@ func c14FS(c *ctx, r Rng, mode string) {
 	}
 }
 
+// c14PrefilteredReaders: every flush writes one file with a block per partition; while a flusher and a merger
+// run freely, readers alternate partition- and minmax-prefiltered queries with match-all queries. A prefiltered
+// query must return every row of its partition / range acknowledged before it began, exactly once, and must
+// leave the store as it found it: the match-all queries in between still see every acknowledged row.
+func c14PrefilteredReaders(c *ctx, r Rng, rounds int) {
+	cfg := snapCfg(r)
+	cfg.PartitionFunc = partitionFunc("p")
+	cfg.MinMaxIndexes = []string{"k"}
+	cfg.MaxQueryConcurrency = pick(r, []int{1, 4, 1000})
+	env := NewEnv(cfg)
+	defer env.Stop()
+	var mu sync.Mutex
+	sent := map[int]bool{}
+	acked := map[int]bool{}
+	nextID := 0
+	stop := make(chan struct{})
+	var wg sync.WaitGroup
+	parts := []string{"a", "b", "c"}
+	wg.Add(2)
+	go func() { // flusher: ids 3n+1, 3n+2, 3n+3 go to partitions a, b, c; k = id
+		defer wg.Done()
+		for {
+			select {
+			case <-stop:
+				return
+			default:
+			}
+			mu.Lock()
+			var rows []map[string]any
+			var ids []int
+			for _, p := range parts {
+				nextID++
+				sent[nextID] = true
+				ids = append(ids, nextID)
+				rows = append(rows, map[string]any{"_id": nextID, "p": p, "k": nextID})
+			}
+			mu.Unlock()
+			if env.IngestWait(rows) == nil {
+				mu.Lock()
+				for _, id := range ids {
+					acked[id] = true
+				}
+				mu.Unlock()
+			}
+			if ids[0] >= 240 {
+				return
+			}
+			time.Sleep(300 * time.Microsecond)
+		}
+	}()
+	go func() { // merger
+		defer wg.Done()
+		for {
+			select {
+			case <-stop:
+				return
+			default:
+			}
+			env.Eng.Merge(context.Background())
+			time.Sleep(400 * time.Microsecond)
+		}
+	}()
+	for i := 0; i < rounds; i++ {
+		mu.Lock()
+		before := map[int]bool{}
+		for id := range acked {
+			before[id] = true
+		}
+		mu.Unlock()
+		var q *bs.Query
+		want := map[int]bool{}
+		what := "match-all"
+		switch i % 3 {
+		case 0:
+			pi := r.IntN(3)
+			q = bs.NewQuery().MatchPrefilter(bs.Partition(bs.PartitionEquals(parts[pi]))).Build()
+			what = "partition = " + parts[pi]
+			for id := range before {
+				if (id-1)%3 == pi {
+					want[id] = true
+				}
+			}
+		case 1:
+			lo := int64(r.IntN(60))
+			q = bs.NewQuery().MatchPrefilter(bs.MinMax("k", bs.NumericBetween(lo, lo+20))).Build()
+			what = fmt.Sprintf("k between %d and %d", lo, lo+20)
+			for id := range before {
+				if int64(id) >= lo && int64(id) <= lo+20 {
+					want[id] = true
+				}
+			}
+		default:
+			q = &bs.Query{}
+			want = before
+		}
+		out := env.Query(q)
+		env.Data.ResetLog()
+		mu.Lock()
+		sentNow := map[int]bool{}
+		for id := range sent {
+			sentNow[id] = true
+		}
+		mu.Unlock()
+		c.r.Case(true, fmt.Sprintf("prefiltered-readers%d-%d-%d", c.seed, i, len(before)))
+		c.r.Hit("stress.prefiltered-query")
+		resultMonitor(c, "MemoryMetaStore, multi-partition files, free-running, query "+what, out, want, sentNow, "", map[string]any{"mode": "prefiltered-readers", "round": i, "query": what, "acked_before": len(before)})
+	}
+	close(stop)
+	wg.Wait()
+}
+
 func runC14(c *ctx) {
 	c.r.Rule = "MemoryMetaStore: scheduled interleavings - 2-4 flushed files (sometimes pre-merged), a match-all query parked at its snapshot, k-th OpenFile or k-th Read (k<=5) while 1-3 flushes/merges run to completion, then released; the result must satisfy the property " +
 		"(nil error => every row acknowledged before the query began exactly once, nothing never ingested) and the recorded store-call trace (publish / commit / merge commit / tombstone / snapshot / open) must be accepted by the Lean snapshot model with the same error flag and the same rows; " +
@@ -745,6 +856,9 @@ func runC14(c *ctx) {
 	}
 	for i := 0; i < 2*c.scale; i++ {
 		c14Stress(c, r, 150)
+	}
+	for i := 0; i < 2*c.scale; i++ {
+		c14PrefilteredReaders(c, r, 60)
 	}
 	c14FS(c, r, "omission")
 	c14FS(c, r, "duplication")
